@@ -226,3 +226,9 @@ impl<W: Copy, const N: usize> Seek for ArrStack<W, N> {
         }
     }
 }
+
+impl<W: Copy, const N: usize> AsRef<[W]> for ArrQueue<W, N> {
+    fn as_ref(&self) -> &[W] {
+        &self.words[..if self.len <= N { self.len } else { N }]
+    }
+}
